@@ -1,17 +1,523 @@
 /-
-  TE.Driver.Agg — protocol adapters of the Agg family (see TE/Driver/Count.lean for the conventions).
+  TE.Driver.Agg — protocol adapters of the C07 models (aggregation, regression,
+  statistical, image, entropy): unpack tensors, perform the shape checks the real
+  `_input_check`s perform, call the typed model of `TE/Model/Agg.lean`.
+
+  Transcendental end values.  `log`, `exp`, `log10` cannot run on `Rat`.  The models
+  take them as parameters `ln exp : Q → Q`; requests whose name ends in `.arg`
+  return the exact rational *argument* of the final transcendental function
+  (`peak_signal_noise_ratio.arg`, `perplexity.arg` is not rational and hence absent),
+  all other PSNR / normalized-entropy / perplexity requests are **evaluated with
+  IEEE doubles** (`lnF`, `expF`, `log10F` below: the C library function applied to
+  the nearest double, the result converted back to an exact rational).  Those
+  end values are approximations (≈1e-15 relative), everything else is exact.
 -/
 import TE.Driver.Fam
+import TE.Model.Agg
+import TE.Spec.Agg
 namespace TE.Driver
-open TE
+open TE TE.Agg
+
+/-! ### doubles ↔ rationals (only for the transcendental end values) -/
+
+def q2f (q : Q) : Float := Float.ofInt q.num / Float.ofNat q.den
+
+def f2q (x : Float) : Option Q :=
+  if x.isNaN || x.isInf then none else
+  let (m, e) := x.frExp
+  let mant : Int := (m.scaleB 53).toInt64.toInt
+  let ex : Int := e - 53
+  some (if 0 ≤ ex then ((mant * (2 : Int) ^ ex.toNat : Int) : Q)
+        else (mant : Q) / (((2 : Int) ^ (-ex).toNat : Int) : Q))
+
+/-- `log` on doubles; `ln 0 = −inf` is represented by a huge negative number (the only
+    consumer, `binary_cross_entropy`, clamps logs at −100). -/
+def lnF (q : Q) : Q := if q ≤ 0 then -1000000 else (f2q (Float.log (q2f q))).getD 0
+def expF (q : Q) : Q := (f2q (Float.exp (q2f q))).getD 0
+
+/-- `10·log10(arg)` on doubles over an extended argument. -/
+def tenLog10F : XQ → XQ
+  | .val a =>
+    if a = 0 then .ninf else if a < 0 then .nan
+    else match f2q (10 * Float.log10 (q2f a)) with | some v => .val v | none => .nan
+  | .pinf => .pinf
+  | .ninf => .nan
+  | .nan => .nan
+
+/-! ### argument helpers -/
+
+def aggWeight (a : Args) (k : String) (input : T) : Except Err Weight :=
+  match a.get? k with
+  | none => .ok (.scalar 1)
+  | some (.s s) => match parseQ s with
+    | .ok q => .ok (.scalar q)
+    | .error _ => .error .other
+  | some (.t w) => if w.shape == input.shape then .ok (.tensor w.data) else .error .value
+  | some (.l _) => .error .other
+
+def optData (a : Args) (k : String) : Except Err (Option T) := liftP (a.tensor? k)
+
+/-- 1-D tensor ↦ one column; (n, d) tensor ↦ d columns. `none` for other ranks. -/
+def asCols (x : T) : Option (Mat × Nat × Bool) :=
+  match x.shape with
+  | [n] => some ([x.data], n, false)
+  | [n, d] => some (cols d x.rows, n, true)
+  | _ => none
+
+/-- rows of a 1-D (one row) or 2-D tensor -/
+def asRows (x : T) : Mat := if x.ndim == 1 then [x.data] else x.rows
+
+def showMat (m : Mat) (c : Nat) : String := showMatQ m c
+
+/-! ### Mean / Sum -/
+
+def famMean (_ : Args) : Except String Fam := pure {
+  stat := fun a => do
+    let i ← liftP (a.tensor "input")
+    let w ← aggWeight a "weight" i
+    let (s, t) ← meanUpdate i.data w
+    pure [[s], [t]]
+  outA := fun p => .ok (showScalarX (.val (meanCompute (part0 p 0) (part0 p 1)))) }
+
+def fnMean (a : Args) : Except Err String := do
+  let i ← liftP (a.tensor "input")
+  let w ← aggWeight a "weight" i
+  pure (showScalarX (← meanFn i.data w))
+
+def famSum (_ : Args) : Except String Fam := pure {
+  stat := fun a => do
+    let i ← liftP (a.tensor "input")
+    let w ← aggWeight a "weight" i
+    pure [[← sumUpdate i.data w]]
+  outA := fun p => .ok (showScalarX (.val (part0 p 0))) }
+
+/-! ### Max / Min -/
+
+def packExt (pick : Q → Q → Q) (empty : XQ) : Pack :=
+  ⟨Option Q, additive ⟨none, opick pick⟩
+    (fun a => do let i ← liftP (a.tensor "input"); extStat pick i.data)
+    (fun s => .ok (showScalarX (extOut empty s)))⟩
+
+/-! ### AUC -/
+
+def aucCheck (x y : T) (nTasks : Nat) : Except Err (Mat × Mat) := do
+  if x.data.isEmpty || y.data.isEmpty then throw .value
+  let xs := if x.ndim == 1 then 1 :: x.shape else x.shape
+  let ys := if y.ndim == 1 then 1 :: y.shape else y.shape
+  if xs != ys then throw .value
+  if xs.head? != some nTasks then throw .value
+  if xs.length != 2 then throw .other
+  pure (asRows x, asRows y)
+
+def fnAuc (a : Args) : Except Err String := do
+  let x ← liftP (a.tensor "x"); let y ← liftP (a.tensor "y")
+  let nTasks := if x.ndim > 1 then x.shape.headD 1 else 1
+  let (xr, yr) ← aucCheck x y nTasks
+  pure (showVecQ (auc (a.bool "reorder" false) xr yr))
+
+def appendRows (s new : Mat) : Mat := if s.isEmpty then new else List.zipWith (· ++ ·) s new
+
+def packAUC (cfg : Args) : Except String Pack := do
+  let nTasks := (← cfg.nat? "n_tasks").getD 1
+  let reorder := cfg.bool "reorder" true
+  pure ⟨Mat × Mat, {
+    init := ([], [])
+    upd := fun s a => do
+      let x ← liftP (a.tensor "x"); let y ← liftP (a.tensor "y")
+      let (xr, yr) ← aucCheck x y nTasks
+      pure (appendRows s.1 xr, appendRows s.2 yr)
+    mrg := fun s ss => .ok (ss.foldl (fun a m => if m.1.isEmpty then a else (appendRows a.1 m.1, appendRows a.2 m.2)) s)
+    out := fun s => if s.1.isEmpty then .ok "0:" else .ok (showVecQ (auc reorder s.1 s.2)) }⟩
+
+/-! ### Covariance -/
+
+def showCov (r : List Q × Mat) : String := showVecQ r.1 ++ " " ++ showMat r.2 r.1.length
+
+def packCovariance (_ : Args) : Except String Pack := pure ⟨CovS, {
+  init := covInit
+  upd := fun s a => do
+    let o ← liftP (a.tensor "obs")
+    if o.ndim != 2 then throw .assertion
+    pure (covUpdate (o.shape.getD 1 0) s o.rows)
+  mrg := fun s ss => .ok (ss.foldl covCombine s)
+  out := fun s => do pure (showCov (← covCompute s)) }⟩
+
+/-! ### mean squared error -/
+
+def mseArgs (a : Args) : Except Err (Mat × Mat × Nat × Bool × Option (List Q)) := do
+  let i ← liftP (a.tensor "input"); let t ← liftP (a.tensor "target")
+  let w ← optData a "sample_weight"
+  if i.ndim ≥ 3 || t.ndim ≥ 3 then throw .value
+  if i.shape != t.shape then throw .value
+  match w with
+  | some w => if w.shape.head? != t.shape.head? then throw .value
+  | none => pure ()
+  match asCols i, asCols t, w with
+  | some (xc, n, two), some (tc, _, _), none => pure (xc, tc, n, two, none)
+  | some (xc, n, two), some (tc, _, _), some w =>
+    if w.ndim != 1 then throw .other else pure (xc, tc, n, two, some w.data)
+  | _, _, _ => throw .other
+
+def mseOut (uniform two : Bool) (sse : List Q) (sw : Q) : String :=
+  let r := mseCompute uniform sse sw
+  if two && !uniform then showVecX r else showScalarX (r.headD .nan)
+
+def famMSE (cfg : Args) : Except String Fam := do
+  let mo := cfg.strD "multioutput" "uniform_average"
+  let ok := mo == "raw_values" || mo == "uniform_average"
+  pure {
+    stat := fun a => do
+      if !ok then throw .value
+      let (xc, tc, n, two, w) ← mseArgs a
+      let (sse, sw) := mseUpdate w xc tc n
+      pure [sse, [sw], [if two then 1 else 0]]
+    outA := fun p =>
+      if !ok then .error .value else
+      let two := part0 p 2 != 0
+      let sse := if two then p.getD 0 [] else [part0 p 0]
+      .ok (mseOut (mo == "uniform_average") two sse (part0 p 1)) }
+
+/-! ### R² -/
+
+def parseMultiOut (s : String) : Option MultiOut :=
+  match s with
+  | "raw_values" => some .raw | "uniform_average" => some .uniform
+  | "variance_weighted" => some .variance | _ => none
+
+def famR2 (cfg : Args) : Except String Fam := do
+  let mo := parseMultiOut (cfg.strD "multioutput" "uniform_average")
+  let p : Int := (← (match cfg.get? "num_regressors" with | none => pure 0 | some _ => cfg.int "num_regressors"))
+  pure {
+    stat := fun a => do
+      if mo.isNone || p < 0 then throw .value
+      let i ← liftP (a.tensor "input"); let t ← liftP (a.tensor "target")
+      if i.ndim ≥ 3 || t.ndim ≥ 3 then throw .value
+      if i.shape != t.shape then throw .value
+      match asCols i, asCols t with
+      | some (xc, n, two), some (tc, _, _) =>
+        let (sso, so, rss) := r2Update xc tc
+        pure [sso, so, rss, [(n : Q)], [if two then 1 else 0]]
+      | _, _ => throw .other
+    outA := fun q =>
+      match mo with
+      | none => .error .value
+      | some mo =>
+        if p < 0 then .error .value else
+        let two := part0 q 4 != 0
+        let get := fun i => if two then q.getD i [] else [part0 q i]
+        do
+          let r ← r2Compute (get 0) (get 1) (get 2) (part0 q 3) mo p.toNat
+          pure (if two && mo == .raw then showVecX r else showScalarX (r.headD .nan)) }
+
+/-! ### Wasserstein-1D -/
+
+def wassArgs (a : Args) (kx ky kxw kyw : String) :
+    Except Err (List Q × List Q × Option (List Q) × Option (List Q)) := do
+  let x ← liftP (a.tensor kx); let y ← liftP (a.tensor ky)
+  let xw ← optData a kxw; let yw ← optData a kyw
+  if x.data.isEmpty || y.data.isEmpty then throw .value
+  if x.ndim > 1 || y.ndim > 1 then throw .value
+  if x.ndim != 1 || y.ndim != 1 then throw .other
+  let chk := fun (v : T) (w : Option T) => match w with
+    | none => true
+    | some w => !w.data.isEmpty && w.data.all (fun q => decide (0 < q)) && w.shape == v.shape
+  if !chk x xw || !chk y yw then throw .value
+  pure (x.data, y.data, xw.map (·.data), yw.map (·.data))
+
+def fnWasserstein (a : Args) : Except Err String := do
+  let (x, y, xw, yw) ← wassArgs a "x" "y" "x_weights" "y_weights"
+  pure (showVecQ [← wasserstein x y xw yw])
+
+/-- cache-all class: samples and weights of both distributions (missing weights are ones). -/
+def packWasserstein (_ : Args) : Except String Pack := pure ⟨(List Q × List Q) × (List Q × List Q), {
+  init := (([], []), ([], []))
+  upd := fun s a => do
+    let (x, y, xw, yw) ← wassArgs a "new_samples_dist_1" "new_samples_dist_2" "new_weights_dist_1" "new_weights_dist_2"
+    let xw := xw.getD (x.map fun _ => 1); let yw := yw.getD (y.map fun _ => 1)
+    pure ((s.1.1 ++ x, s.1.2 ++ xw), (s.2.1 ++ y, s.2.2 ++ yw))
+  mrg := fun s ss => .ok (ss.foldl (fun a m => ((a.1.1 ++ m.1.1, a.1.2 ++ m.1.2), (a.2.1 ++ m.2.1, a.2.2 ++ m.2.2))) s)
+  out := fun s =>
+    if s.1.1.isEmpty then .error .value
+    else do pure (showVecQ [← wasserstein s.1.1 s.2.1 (some s.1.2) (some s.2.2)]) }⟩
+
+/-! ### PSNR -/
+
+def psnrArgs (a : Args) : Except Err (List Q × List Q) := do
+  let i ← liftP (a.tensor "input"); let t ← liftP (a.tensor "target")
+  if i.shape != t.shape then throw .value
+  pure (i.data, t.data)
+
+def dataRangeOf (a : Args) : Except Err (Option Q) :=
+  match a.get? "data_range" with
+  | none => .ok none
+  | some (.s "none") => .ok none
+  | some (.s s) => match parseQ s with | .ok q => .ok (some q) | .error _ => .error .other
+  | _ => .error .other
+
+/-- exact argument of `log10` -/
+def fnPsnrArg (a : Args) : Except Err String := do
+  let dr ← dataRangeOf a
+  if let some r := dr then if r ≤ 0 then throw .value
+  let (x, t) ← psnrArgs a
+  pure (showScalarX (← psnrFn x t dr))
+
+/-- end value, evaluated with doubles -/
+def fnPsnr (a : Args) : Except Err String := do
+  let dr ← dataRangeOf a
+  if let some r := dr then if r ≤ 0 then throw .value
+  let (x, t) ← psnrArgs a
+  pure (showScalarX (tenLog10F (← psnrFn x t dr)))
+
+def packPsnr (cfg : Args) : Except String Pack := do
+  let dr ← (match dataRangeOf cfg with | .ok d => pure d | .error _ => throw "bad data_range")
+  let auto := dr.isNone
+  pure ⟨PsnrS, {
+    init := psnrInit dr
+    upd := fun s a => do let (x, t) ← psnrArgs a; psnrUpd auto s x t
+    mrg := fun s ss => .ok (psnrMrg auto s ss)
+    out := fun s => .ok (showScalarX (tenLog10F (psnrArg s.sse s.n s.range))) }⟩
+
+/-! ### binary normalized entropy (end values evaluated with doubles) -/
+
+def bneArgs (a : Args) (numTasks : Nat) (fromLogits : Bool) : Except Err (Mat × Mat × Option Mat × Bool) := do
+  let i ← liftP (a.tensor "input"); let t ← liftP (a.tensor "target")
+  let w ← optData a "weight"
+  if i.shape != t.shape then throw .value
+  if let some w := w then if w.shape != i.shape then throw .value
+  if numTasks == 1 then (if i.ndim > 1 then throw .value)
+  else if i.ndim == 1 || i.shape.head? != some numTasks then throw .value
+  if i.data.isEmpty then throw .runtime
+  if !fromLogits && (i.data.any (fun q => decide (1 < q)) || i.data.any (fun q => decide (q < 0))) then throw .value
+  if i.ndim > 2 || i.ndim == 0 then throw .other
+  pure (asRows i, asRows t, w.map asRows, i.ndim == 2)
+
+def bneRows (fromLogits : Bool) (x t : Mat) (w : Option Mat) : List (Q × Q × Q) :=
+  (List.range x.length).map fun k =>
+    bneUpdate lnF expF fromLogits (x.getD k []) (t.getD k []) (w.map fun w => w.getD k [])
+
+def fnBne (a : Args) : Except Err String := do
+  let nt := (← liftP (a.nat? "num_tasks")).getD 1
+  let fl := a.bool "from_logits" false
+  let (x, t, w, two) ← bneArgs a nt fl
+  let r := (bneRows fl x t w).map fun (ce, pos, ex) => bneCompute lnF ce pos ex
+  pure (if two then showVecX r else showScalarX (r.headD .nan))
+
+def famBne (cfg : Args) : Except String Fam := do
+  let nt := (← cfg.nat? "num_tasks").getD 1
+  let fl := cfg.bool "from_logits" false
+  pure {
+    stat := fun a => do
+      let (x, t, w, _) ← bneArgs a nt fl
+      let r := bneRows fl x t w
+      pure [r.map (·.1), r.map (·.2.2), r.map (·.2.1)]
+    outA := fun p =>
+      let ce := part p 0 nt; let ex := part p 1 nt; let pos := part p 2 nt
+      if ex.any (· == 0) then .ok "0:" else
+      .ok (showVecX ((List.range nt).map fun k => bneCompute lnF (ce.getD k 0) (pos.getD k 0) (ex.getD k 0))) }
+
+/-! ### perplexity (end values evaluated with doubles) -/
+
+def pplArgs (a : Args) (ignore : Option Int) : Except Err (Q × Q) := do
+  let i ← liftP (a.tensor "input"); let t ← liftP (a.tensor "target")
+  if t.ndim != 2 then throw .value
+  if i.ndim != 3 then throw .value
+  if i.shape.head? != t.shape.head? then throw .value
+  if i.shape[1]? != t.shape[1]? then throw .value
+  let v := i.shape.getD 2 0
+  let rows := (T.rows { shape := [t.data.length, v], data := i.data })
+  let tg ← liftP (t.data.mapM fun q => match qToInt? q with | some z => .ok z | none => .error "label")
+  -- negative labels that are not ignored index from the end in torch: outside the modelled contract
+  if (pplTokens rows tg ignore).any (fun p => decide (p.2 < 0)) then throw .other
+  pplUpdate expF lnF v rows tg ignore
+
+def ignoreOf (a : Args) : Except String (Option Int) :=
+  match a.get? "ignore_index" with
+  | none => .ok none
+  | some (.s "none") => .ok none
+  | some _ => do pure (some (← a.int "ignore_index"))
+
+def fnPerplexity (a : Args) : Except Err String := do
+  let ig ← liftP (ignoreOf a)
+  let (s, n) ← pplArgs a ig
+  pure (showScalarX (pplCompute expF s n))
+
+def famPerplexity (cfg : Args) : Except String Fam := do
+  let ig ← ignoreOf cfg
+  pure {
+    stat := fun a => do let (s, n) ← pplArgs a ig; pure [[s], [n]]
+    outA := fun p => if part0 p 1 = 0 then .ok "0:" else .ok (showScalarX (pplCompute expF (part0 p 0) (part0 p 1))) }
+
+/-! ### Throughput -/
+
+def thrArgs (a : Args) : Except Err (Q × Q) := liftP do
+  let n ← a.ratD "num_processed" 0; let e ← a.ratD "elapsed_time_sec" 0; pure (n, e)
+
+def fnThroughput (a : Args) : Except Err String := do
+  let (n, e) ← thrArgs a
+  pure (showScalarX (.val (← throughputFn n e)))
+
+def packThroughput (_ : Args) : Except String Pack := pure ⟨Q × Q, {
+  init := (0, 0)
+  upd := fun s a => do let (n, e) ← thrArgs a; thrUpd s n e
+  mrg := fun s ss => .ok (thrMrg s ss)
+  out := fun s => .ok (showScalarX (.val (thrOut s))) }⟩
+
+/-! ### Fréchet audio distance: moments, and the rational part of the Gaussian Fréchet distance -/
+
+def fnFadMoments (a : Args) : Except Err String := do
+  let e ← liftP (a.tensor "embeddings")
+  if e.ndim != 2 || e.shape.headD 0 < 2 then throw .other
+  let d := e.shape.getD 1 0
+  pure (showCov (fadMoments (fadBatch d e.rows)))
+
+/-- partial sums accumulated batch by batch (as `_update_state` / `merge_state` do), then the moments -/
+def fnFadMomentsStream (a : Args) : Except Err String := do
+  let es ← liftP (a.tlist "embeddings")
+  let d := (es.head?.map fun e => e.shape.getD 1 0).getD 0
+  if es.any (fun e => e.ndim != 2 || e.shape.getD 1 0 != d) then throw .other
+  let s := es.foldl (fun s e => fadAdd s (fadBatch d e.rows)) ⟨0, vzero d, mzero d d⟩
+  if s.n < 2 then throw .other
+  pure (showCov (fadMoments s))
+
+def fnFrechetAB (a : Args) : Except Err String := do
+  let mx ← liftP (a.tensor "mu_x"); let my ← liftP (a.tensor "mu_y")
+  let cx ← liftP (a.tensor "cov_x"); let cy ← liftP (a.tensor "cov_y")
+  if mx.ndim != 1 || my.ndim != 1 || cx.ndim != 2 || cy.ndim != 2 then throw .value
+  if mx.shape != my.shape || cx.shape != cy.shape then throw .value
+  pure (showScalarX (.val (frechetAB mx.data my.data cx.rows cy.rows)))
+
+/-! ### spec oracles: the `TE/Spec/Agg.lean` definitions, evaluated (undefined ratios print `nan`) -/
+
+def guard0 (den v : Q) : XQ := if den = 0 then .nan else .val v
+
+def specWeights (a : Args) (k : String) (n : Nat) : Except Err (List Q) := do
+  match a.get? k with
+  | none => pure (List.replicate n 1)
+  | some (.s "none") => pure (List.replicate n 1)
+  | some (.s s) => match parseQ s with | .ok q => pure (List.replicate n q) | .error _ => throw .other
+  | some (.t w) => pure w.data
+  | _ => throw .other
+
+def specMean (a : Args) : Except Err String := do
+  let i ← liftP (a.tensor "input"); let w ← specWeights a "weight" i.data.length
+  pure (showScalarX (guard0 w.sum (Spec.Agg.wmean w i.data)))
+
+def specSum (a : Args) : Except Err String := do
+  let i ← liftP (a.tensor "input"); let w ← specWeights a "weight" i.data.length
+  pure (showScalarX (.val (Spec.Agg.wsum w i.data)))
+
+def specAuc (a : Args) : Except Err String := do
+  let x ← liftP (a.tensor "x"); let y ← liftP (a.tensor "y")
+  let reorder := a.bool "reorder" false
+  pure (showVecQ (List.zipWith (fun xs ys =>
+    if reorder then Spec.Agg.auc (xs.zip ys) else Spec.Agg.trapzPts (xs.zip ys)) (asRows x) (asRows y)))
+
+def specCov (a : Args) : Except Err String := do
+  let o ← liftP (a.tensor "obs")
+  if o.ndim != 2 || o.shape.headD 0 < 2 then throw .other
+  let d := o.shape.getD 1 0
+  let c := cols d o.rows
+  pure (showVecQ (c.map Spec.Agg.mean) ++ " " ++ showMat (c.map fun ci => c.map fun cj => Spec.Agg.cov ci cj) d)
+
+def specMse (a : Args) : Except Err String := do
+  let i ← liftP (a.tensor "input"); let t ← liftP (a.tensor "target")
+  match asCols i, asCols t with
+  | some (xc, n, two), some (tc, _, _) =>
+    let w ← specWeights a "sample_weight" n
+    let raw := List.zipWith (fun x y => guard0 w.sum (Spec.Agg.wmse w x y)) xc tc
+    if a.strD "multioutput" "uniform_average" == "raw_values" then
+      pure (if two then showVecX raw else showScalarX (raw.headD .nan))
+    else pure (showScalarX (xmean raw))
+  | _, _ => throw .other
+
+def specR2 (a : Args) : Except Err String := do
+  let i ← liftP (a.tensor "input"); let t ← liftP (a.tensor "target")
+  let p := (← liftP (a.nat? "num_regressors")).getD 0
+  match asCols i, asCols t with
+  | some (xc, n, two), some (tc, _, _) =>
+    if n < 2 || (n : Int) - 1 ≤ p then throw .value
+    if tc.any (fun y => Spec.Agg.tss y == 0) then throw .other
+    let adj := fun r => if p = 0 then r else Spec.Agg.r2adj n p r
+    let raw := List.zipWith Spec.Agg.r2 xc tc
+    match a.strD "multioutput" "uniform_average" with
+    | "raw_values" => pure (if two then showVecQ (raw.map adj) else showScalarX (.val (adj (raw.headD 0))))
+    | "variance_weighted" => pure (showScalarX (.val (adj (Spec.Agg.r2vw xc tc))))
+    | _ => pure (showScalarX (.val (adj (Spec.Agg.mean raw))))
+  | _, _ => throw .other
+
+def specWasserstein (a : Args) : Except Err String := do
+  let x ← liftP (a.tensor "x"); let y ← liftP (a.tensor "y")
+  let xw ← specWeights a "x_weights" x.data.length; let yw ← specWeights a "y_weights" y.data.length
+  if xw.sum = 0 || yw.sum = 0 then throw .other
+  pure (showVecQ [Spec.Agg.w1 (x.data.zip xw) (y.data.zip yw)])
+
+def specPsnrArg (a : Args) : Except Err String := do
+  let (x, t) ← psnrArgs a
+  let dr ← dataRangeOf a
+  let range ← (match dr, reduceBy qmax t, reduceBy qmin t with
+    | some r, _, _ => pure r
+    | none, some hi, some lo => pure (hi - lo)
+    | _, _, _ => throw .other)
+  let sse := (List.zipWith (fun u v => (u - v) * (u - v)) x t).sum
+  pure (showScalarX (if sse = 0 then (if range = 0 then .nan else .pinf) else .val (Spec.Agg.psnrRatio range x t)))
+
+def specThroughput (a : Args) : Except Err String := do
+  let n ← liftP (a.tensor "num_processed"); let e ← liftP (a.tensor "elapsed_time_sec")
+  pure (showScalarX (guard0 e.data.sum (Spec.Agg.throughput n.data e.data)))
+
+def specFadMoments (a : Args) : Except Err String := do
+  let e ← liftP (a.tensor "embeddings")
+  if e.ndim != 2 || e.shape.headD 0 < 2 then throw .other
+  let d := e.shape.getD 1 0
+  let c := cols d e.rows
+  pure (showVecQ (c.map Spec.Agg.mean) ++ " " ++ showMat (c.map fun ci => c.map fun cj => Spec.Agg.cov ci cj) d)
+
+/-! ### tables -/
 
 /-- (functional name, class name, configured family) — sufficient-statistic / cache-all classes. -/
-def aggFams : List (String × String × (Args → Except String Fam)) := []
+def aggFams : List (String × String × (Args → Except String Fam)) := [
+  ("mean.class", "Mean", famMean),
+  ("sum", "Sum", famSum),
+  ("mean_squared_error", "MeanSquaredError", famMSE),
+  ("r2_score", "R2Score", famR2),
+  ("binary_normalized_entropy.class", "BinaryNormalizedEntropy", famBne),
+  ("perplexity.class", "Perplexity", famPerplexity)
+]
 
-/-- (class name, packaged class model) — classes that are not `additive` (own state machine). -/
-def aggPacks : List (String × (Args → Except String Pack)) := []
+/-- (class name, packaged class model) — classes that are not `additive` over `Parts` (own state machine). -/
+def aggPacks : List (String × (Args → Except String Pack)) := [
+  ("Max", fun _ => pure (packExt qmax .ninf)),
+  ("Min", fun _ => pure (packExt qmin .pinf)),
+  ("AUC", packAUC),
+  ("Covariance", packCovariance),
+  ("Throughput", packThroughput),
+  ("Wasserstein1D", packWasserstein),
+  ("PeakSignalNoiseRatio", packPsnr)
+]
 
 /-- (request name, handler) — functionals without a class twin and `spec.*` oracles. -/
-def aggFns : List (String × (Args → Except Err String)) := []
+def aggFns : List (String × (Args → Except Err String)) := [
+  ("mean", fnMean),
+  ("auc", fnAuc),
+  ("wasserstein_1d", fnWasserstein),
+  ("peak_signal_noise_ratio.arg", fnPsnrArg),
+  ("peak_signal_noise_ratio", fnPsnr),
+  ("binary_normalized_entropy", fnBne),
+  ("perplexity", fnPerplexity),
+  ("throughput", fnThroughput),
+  ("fad.moments", fnFadMoments),
+  ("fad.moments_stream", fnFadMomentsStream),
+  ("gaussian_frechet_distance.ab", fnFrechetAB),
+  ("spec.mean", specMean),
+  ("spec.sum", specSum),
+  ("spec.auc", specAuc),
+  ("spec.covariance", specCov),
+  ("spec.mean_squared_error", specMse),
+  ("spec.r2_score", specR2),
+  ("spec.wasserstein_1d", specWasserstein),
+  ("spec.peak_signal_noise_ratio.arg", specPsnrArg),
+  ("spec.throughput", specThroughput),
+  ("spec.fad.moments", specFadMoments)
+]
 
 end TE.Driver
